@@ -217,41 +217,5 @@ func runC06(e *Engine, r *Report) {
 	ruleAppliedArg(e, r)
 
 	// ---- client side: release only when applied has reached the index
-	rbIndex := r.needField("dragonboat", "readBatch", "index")
-	readyToRead := r.needField("dragonboat", "RequestState", "readyToRead")
-	readySet := r.need("(*dragonboat.ready).set")
-	applied := r.need("(*dragonboat.pendingReadIndex).applied")
-	if rbIndex != nil && readyToRead != nil && readySet != nil && applied != nil {
-		n = 0
-		for _, s := range e.CallerSites(readySet) {
-			// receiver is &req.readyToRead
-			recv := s.Common().Args
-			if len(recv) == 0 {
-				continue
-			}
-			f, _, ok := fieldOfAddr(recv[0])
-			if !ok || f != readyToRead {
-				continue
-			}
-			n++
-			key := "readyToRead.set in " + fname(s.Parent())
-			var appliedParam VM = func(v ssa.Value) bool {
-				p, ok := stripConv(v).(*ssa.Parameter)
-				return ok && p.Name() == "applied"
-			}
-			r.guard("GD-read-release", key, s.(ssa.Instruction),
-				reqCmp("batch index <= applied", "<=", fieldV(rbIndex), appliedParam),
-				reqCmp("batch index > 0", ">", fieldV(rbIndex), intConstV(0)))
-		}
-		r.floor("GD-read-release", n, 1)
-		// rb.index is set only from ReadyToRead records
-		rtrIndex := e.Field("raftpb", "ReadyToRead", "Index")
-		for _, w := range e.FieldWrites(rbIndex) {
-			if intConstV(0)(w.Val) {
-				continue
-			}
-			r.check(fieldV(rtrIndex)(w.Val), "WMW-read-index", "readBatch.index written in "+fname(w.Fn), e.ipos(w.Instr),
-				"the batch index comes from a ReadyToRead record produced by the raft core", "the batch index is set from something other than a ReadyToRead record")
-		}
-	}
+	ruleReadRelease(e, r)
 }
